@@ -108,6 +108,34 @@ func checkArch(scen string, in ArchIn) (vs []*mc.Violation, accepted bool) {
 	return vs, true
 }
 
+// ReuseIn: two texts decoded one after the other into the SAME value (UnmarshalControl on a reused receiver).
+type ReuseIn struct{ First, Second string }
+
+func checkReuse(scen string, in ReuseIn) []*mc.Violation {
+	var vs []*mc.Violation
+	fresh, err := dependency.Parse(in.Second)
+	if err == nil {
+		var d dependency.Dependency
+		var e2 error
+		if p, msg := mc.Guard(func() { d.UnmarshalControl(in.First); e2 = d.UnmarshalControl(in.Second) }); p {
+			return []*mc.Violation{mc.V(scen, "parse-returns", in, "no panic", msg)}
+		}
+		if e2 != nil {
+			vs = append(vs, mc.V(scen, "reused-value-decodes-like-a-fresh-one", in, gen.CanonDep(fresh), "error: "+e2.Error()))
+		} else if got := gen.CanonDep(&d); got != gen.CanonDep(fresh) {
+			vs = append(vs, mc.V(scen, "reused-value-decodes-like-a-fresh-one", in, gen.CanonDep(fresh), got))
+		}
+	}
+	if fa, err := dependency.ParseArch(in.Second); err == nil && !strings.ContainsAny(in.Second, " ,|([<$") {
+		var a dependency.Arch
+		a.UnmarshalControl(in.First)
+		if e := a.UnmarshalControl(in.Second); e != nil || a != *fa {
+			vs = append(vs, mc.V(scen, "reused-arch-decodes-like-a-fresh-one", in, fmt.Sprintf("%+v", *fa), fmt.Sprintf("%+v %v", a, e)))
+		}
+	}
+	return vs
+}
+
 var tokens = []string{"a", "b1", " ", ",", "|", "(", ")", "[", "]", "<", ">", "!", ":", ">=", "<<", "=", "1.0", "${", "}", "amd64", "linux-any", "any", "\n", "é"}
 
 func Run(r *mc.Run) {
@@ -207,6 +235,26 @@ func Run(r *mc.Run) {
 		return true
 	})
 
+	// decoding into a value that already holds something
+	reuse := []string{"", "a", "a, b | c", "x:any (>= 1) [amd64 !i386] <!p q> <r>", "${misc:Depends}", "foo (>= 1", "amd64", "linux-any", "gnu-kfreebsd-amd64", "any", "all", "hurd-i386", "a [x]", "b <p>"}
+	reuse = append(reuse, gen.AuditStrings(gen.Nameish, 3)...)
+	r.Scenario("decode-into-reused-value", map[string]interface{}{"texts": reuse}, len(reuse), func(i int, st *mc.Stats) bool {
+		for _, y := range reuse {
+			st.Evals++
+			st.Traces++
+			st.Nontrivial++
+			vs := checkReuse("decode-into-reused-value", ReuseIn{reuse[i], y})
+			if len(vs) == 0 {
+				st.Class("as-fresh")
+			}
+			for _, v := range vs {
+				st.Violate(v)
+				st.Class(v.Clause)
+			}
+		}
+		return true
+	})
+
 	// architecture names
 	comps := append([]string{"any", "all", "linux", "gnu", "musl", "kfreebsd", "amd64", "x"}, gen.AuditStrings(func(s string) bool { return gen.Nameish(s) && !strings.Contains(s, "-") }, 3)...)
 	var names []string
@@ -275,6 +323,13 @@ func Run(r *mc.Run) {
 }
 
 func Replay(scenario string, raw json.RawMessage) []*mc.Violation {
+	if scenario == "decode-into-reused-value" {
+		var in ReuseIn
+		if json.Unmarshal(raw, &in) == nil {
+			return checkReuse(scenario, in)
+		}
+		return nil
+	}
 	if scenario == "arch-names-roundtrip" {
 		var in ArchIn
 		if json.Unmarshal(raw, &in) == nil {
